@@ -18,8 +18,9 @@ Require Import Verif.Corr.C06.
 Local Open Scope N_scope.
 `
 
-// the syscase printer of main.go with this property's header (its monitor lives in Corr/C06.v)
-func (c *RunCtx) writeC06Cases(monitor string, per int) {
+// the syscase printer of main.go (150 cases per file) with this property's header (its monitor lives
+// in Corr/C06.v)
+func (c *RunCtx) writeC06Cases(monitor string) {
 	tmp := c.Meta.Files
 	c.writeSysCases(monitor, true)
 	// rewrite the files just written with the extended header
@@ -140,11 +141,77 @@ func init() {
 			}
 		}
 		ctx.Meta.Rule = "every deviation of the catalogue (typ, alg, embedded jwk absent/private/other, signature, htm, 11 htu variants, iat stale/future/absent/old, jti, ath absent/other, two DPoP headers, no proof, certificate absent/other) presented at every entry point (token for 4 grants, PAR, userinfo GET/POST, TokenInfoFromRequest, bc-authorize push, implicit tokens) in every configuration mode (DPoP / certificate binding / both: optional, server-required, client-required, some-binding-required, off); distinct by projected trace; non-trivial = at least one accepted and one refused operation"
-		ctx.writeC06Cases("mon_C06", 150)
+		ctx.writeC06Cases("mon_C06")
 		ctx.writeCasesJSON()
 	}})
 	register(&Suite{Name: "c06flow", Run: func(ctx *RunCtx) {
-		n := ctx.N(110, 4000)
+		// part 1: the announcement matrix (gen_c06.go), every row in the mode where only the announcement
+		// asks for a proof / certificate and in one more mode (quick: rotating with the seed; thorough: all),
+		// the pushed rows also under a FAPI profile, where outer parameters must be ignored
+		rows := c06AnnMatrix()
+		seed := int(ctx.Seed)
+		if seed < 0 {
+			seed = -seed
+		}
+		nh := 0
+		for ri, a := range rows {
+			type pick struct {
+				m       c06Mode
+				profile string
+			}
+			var sel []pick
+			if ctx.Quick() {
+				sel = append(sel, pick{c06OptionalMode(a), "openid"}, pick{c06Modes[(ri*7+seed)%len(c06Modes)], "openid"})
+				if a.Par && (ri+seed)%2 == 0 {
+					sel = append(sel, pick{c06OptionalMode(a), "fapi2"})
+				}
+			} else {
+				for _, m := range c06Modes {
+					sel = append(sel, pick{m, "openid"})
+					if a.Par {
+						sel = append(sel, pick{m, "fapi2"})
+					}
+				}
+			}
+			for si, s := range sel {
+				nh++
+				prefix := ""
+				if (ri+si+seed)%5 == 0 {
+					prefix = "/auth"
+				}
+				fl := []string{"copy", "alias"}[nh%2]
+				client := []int{3, 1, 2}[(ri+si+seed)%3]
+				h := newC06HistP(ctx.R, s.m, prefix, fl, s.profile)
+				h.matrixRow(ctx.R, a, client, func(row string) { ctx.Meta.Dist["matrix:"+row]++ })
+				ctx.AddCase(h.g.Case(fmt.Sprintf("c06flow/matrix#%d row=%s mode=%s profile=%s client=%d prefix=%q /%s", nh, a, s.m.Name, s.profile, client, prefix, fl)))
+				ctx.AddStats(h.g.stats)
+				c06Antecedents(ctx, h)
+				ctx.Meta.Dist["mode:"+s.m.Name]++
+				ctx.Meta.Dist["profile:"+s.profile]++
+			}
+		}
+		// the CIBA rows: accompaniment of /bc-authorize x push / poll, under DPoP, certificate binding and both
+		for ci, at := range []c06Acc{{0, 0}, {c06K1, 0}, {0, c06C1}, {c06K1, c06C1}} {
+			for pi, push := range []bool{true, false} {
+				ms := []c06Mode{c06OptionalMode(c06Ann{ParProof: at.Key, ParCert: at.Cert}), c06Modes[(ci*7+pi*3+seed)%len(c06Modes)]}
+				if !ctx.Quick() {
+					ms = c06Modes
+				}
+				for _, m := range ms {
+					nh++
+					fl := []string{"copy", "alias"}[nh%2]
+					h := newC06HistP(ctx.R, m, "", fl, "openid")
+					h.cibaRow(ctx.R, push, at, func(row string) { ctx.Meta.Dist["matrix:"+row]++ })
+					ctx.AddCase(h.g.Case(fmt.Sprintf("c06flow/matrix#%d ciba push=%v bc-authorize[%s] mode=%s /%s", nh, push, at, m.Name, fl)))
+					ctx.AddStats(h.g.stats)
+					c06Antecedents(ctx, h)
+					ctx.Meta.Dist["mode:"+m.Name]++
+				}
+			}
+		}
+		ctx.Meta.Dist["matrix-histories"] = nh
+		// part 2: random walks over the same space, continued through userinfo and refresh
+		n := ctx.N(90, 4000)
 		for i := 0; i < n; i++ {
 			m := c06Modes[ctx.R.Intn(len(c06Modes))]
 			prefix := ""
@@ -152,15 +219,20 @@ func init() {
 				prefix = "/auth"
 			}
 			fl := []string{"copy", "alias"}[i%2]
-			h := newC06Hist(ctx.R, m, prefix, fl)
-			note := h.cross(ctx.R)
-			ctx.AddCase(h.g.Case(fmt.Sprintf("c06flow#%d mode=%s prefix=%q %s /%s", i, m.Name, prefix, note, fl)))
+			profile := "openid"
+			if ctx.R.Intn(6) == 0 {
+				profile = "fapi2"
+			}
+			h := newC06HistP(ctx.R, m, prefix, fl, profile)
+			note := h.cross(ctx.R, func(shape string) { ctx.Meta.Dist["random-announcement:"+shape]++ })
+			ctx.AddCase(h.g.Case(fmt.Sprintf("c06flow#%d mode=%s profile=%s prefix=%q %s /%s", i, m.Name, profile, prefix, note, fl)))
 			ctx.AddStats(h.g.stats)
 			c06Antecedents(ctx, h)
 			ctx.Meta.Dist["mode:"+m.Name]++
+			ctx.Meta.Dist["profile:"+profile]++
 		}
-		ctx.Meta.Rule = "cross-endpoint histories PAR -> authorize -> token -> userinfo / TokenInfoFromRequest -> refresh -> userinfo for public and confidential clients, the binding announced through dpop_jkt, a DPoP proof or a certificate at PAR or dpop_jkt at /authorize, each later step with the right, another or no key / certificate; distinct by projected trace; non-trivial = at least one accepted and one refused operation"
-		ctx.writeC06Cases("mon_C06", 150)
+		ctx.Meta.Rule = "(1) announcement matrix: every combination of the channels a binding is announced through - /authorize with dpop_jkt in {none, K1, K2}; /par with a DPoP header in {none, K1} x dpop_jkt in {none, K1, K2} x certificate in {none, C1} followed by /authorize?request_uri with an outer dpop_jkt in {none, K1, K2} (agreeing, disagreeing, absent) - each run in the mode where only the announcement demands a proof and in a second mode, pushed rows also under FAPI (outer parameters ignored), GET and POST; per row the code is redeemed with a proof for K1 / K2 / an unannounced key / none and with certificate C1 / C2 / none, and a token issued by the authorization endpoint (implicit, hybrid) is presented at userinfo with each key; the covered (row, accompaniment, outcome) cells are listed under matrix: in input_distribution. (2) random cross-endpoint histories PAR -> authorize -> token -> userinfo / TokenInfoFromRequest -> refresh -> userinfo for public and confidential clients over the same announcement space, each later step with the right, another or no key / certificate; distinct by projected trace; non-trivial = at least one accepted and one refused operation"
+		ctx.writeSysCasesWith(c06Header, "check_case", "mon_C06", true)
 		ctx.writeCasesJSON()
 	}})
 }
